@@ -87,3 +87,111 @@ fn k_hist_points_with_rejected_write() {
     assert!(be32(&shx_buf, 100) == 50 && be32(&shx_buf, 104) == 10 && be32(&shx_buf, 108) == 64 && be32(&shx_buf, 112) == 10);
     assert!(shx_buf[116] == 0);
 }
+
+/// C11 (bounded): a crash right after an append that follows a completed finalize (the writer is forgotten, so
+/// no Drop / finalize runs): both files must still announce exactly what the completed finalize committed, and
+/// the committed record must be intact; the appended bytes lie after the committed length.
+#[kani::proof]
+#[kani::unwind(24)]
+fn k_hist_crash_after_append() {
+    let mut shp_buf = [0u8; 160];
+    let mut shx_buf = [0u8; 120];
+    let x1: u64 = kani::any();
+    {
+        let mut w = ShapeWriter::with_shx(Mem { buf: &mut shp_buf[..], pos: 0, len: 0 }, Mem { buf: &mut shx_buf[..], pos: 0, len: 0 });
+        let r = w.write_shape(&Point::new(f64::from_bits(x1), 2.0));
+        assert!(r.is_ok());
+        std::mem::forget(r);
+        let r = w.finalize();
+        assert!(r.is_ok());
+        std::mem::forget(r);
+        let r = w.write_shape(&Point::new(3.0, 4.0));
+        assert!(r.is_ok());
+        std::mem::forget(r);
+        std::mem::forget(w); // crash: nothing more reaches the files
+    }
+    assert!(be32(&shp_buf, 0) == 9994 && be32(&shp_buf, 24) == 64 && le32(&shp_buf, 28) == 1000 && le32(&shp_buf, 32) == 1);
+    assert!(be32(&shp_buf, 100) == 1 && be32(&shp_buf, 104) == 10 && le32(&shp_buf, 108) == 1);
+    assert!(le64(&shp_buf, 112) == x1 && le64(&shp_buf, 120) == 2.0f64.to_bits());
+    assert!(be32(&shx_buf, 0) == 9994 && be32(&shx_buf, 24) == 54 && be32(&shx_buf, 100) == 50 && be32(&shx_buf, 104) == 10);
+}
+
+/// a destination that persists only the first `budget` bytes it is given (a crash after that many bytes), and goes on
+/// accepting writes so that the program runs to its end
+struct CutMem<'a> {
+    buf: &'a mut [u8],
+    pos: usize,
+    len: usize,
+    budget: usize,
+}
+impl Write for CutMem<'_> {
+    fn write(&mut self, data: &[u8]) -> std::io::Result<usize> {
+        let mut i = 0;
+        while i < data.len() {
+            if self.budget > 0 {
+                self.buf[self.pos + i] = data[i];
+                self.budget -= 1;
+                if self.pos + i + 1 > self.len {
+                    self.len = self.pos + i + 1;
+                }
+            }
+            i += 1;
+        }
+        self.pos += data.len();
+        Ok(data.len())
+    }
+    fn flush(&mut self) -> std::io::Result<()> {
+        Ok(())
+    }
+}
+impl Seek for CutMem<'_> {
+    fn seek(&mut self, to: SeekFrom) -> std::io::Result<u64> {
+        self.pos = match to {
+            SeekFrom::Start(n) => n as usize,
+            SeekFrom::End(d) => (self.len as i64 + d) as usize,
+            SeekFrom::Current(d) => (self.pos as i64 + d) as usize,
+        };
+        Ok(self.pos as u64)
+    }
+}
+
+/// C11 (bounded): `write_shapes` of two points with the .shp cut after an arbitrary number of bytes: what was
+/// persisted after the header is a prefix of the complete file (records are only ever appended, byte after byte)
+#[kani::proof]
+#[kani::unwind(24)]
+fn k_hist_cut_is_prefix() {
+    let pts = [Point::new(1.5, -2.5), Point::new(3.0, 4.0)];
+    let mut full = [0u8; 160];
+    let mut full_x = [0u8; 120];
+    {
+        let w = ShapeWriter::with_shx(Mem { buf: &mut full[..], pos: 0, len: 0 }, Mem { buf: &mut full_x[..], pos: 0, len: 0 });
+        let r = w.write_shapes(&pts);
+        assert!(r.is_ok());
+        std::mem::forget(r);
+    }
+    let budget: usize = kani::any();
+    kani::assume(budget <= 156);
+    let mut cut = [0u8; 160];
+    let mut cut_x = [0u8; 120];
+    let persisted;
+    {
+        let mut sink = CutMem { buf: &mut cut[..], pos: 0, len: 0, budget };
+        let mut sink_x = CutMem { buf: &mut cut_x[..], pos: 0, len: 0, budget: 1000 };
+        {
+            let w = ShapeWriter::with_shx(&mut sink, &mut sink_x);
+            let r = w.write_shapes(&pts);
+            std::mem::forget(r);
+        }
+        persisted = sink.len;
+    }
+    assert!(persisted <= 156);
+    let mut i = 100;
+    while i < 156 {
+        // four bytes per step keeps the loop within the unwinding bound
+        assert!(i >= persisted || cut[i] == full[i]);
+        assert!(i + 1 >= persisted || cut[i + 1] == full[i + 1]);
+        assert!(i + 2 >= persisted || cut[i + 2] == full[i + 2]);
+        assert!(i + 3 >= persisted || cut[i + 3] == full[i + 3]);
+        i += 4;
+    }
+}
